@@ -62,13 +62,16 @@ CLAIMED["C03"] = dict(
 CLAIMED["C11"] = dict(
     engine="tlc+selection", design_ref="4.11",
     technique="TLA+ exact-integer scoring model with tie tolerance; TLC checks stability, leave-only-if, cap precedence "
-              "on every vector; every vector replayed on the real selector (called twice and with the result fed back)",
+              "on every vector; every vector replayed on the real selector (called twice and with the result fed "
+              "back); seeded timed histories of the real selector validated by TLC against Trace_Selection.tla "
+              "(50 ms quality-cache contract, hysteresis, re-run stability, factor ranges)",
     text="Scores are exact integers in the specification (base x phase weight x quality x soft cap x gate penalty); "
          "TLC checks Stable, LeaveOnlyIf and CapNeverChosenWhileUnconstrained on every enumerated vector incl. "
          "ties, zero scores and the exact 1.10x boundary, and the real selector's answer must lie in the allowed "
          "set, repeat on an unchanged state and stay when fed back.",
-    note=SEL_NOTE + " Quality multipliers are stamped into a fresh cache entry; the multiplier function's own range "
-         "is not decided here yet.")
+    note=SEL_NOTE + " One-shot vectors stamp a fresh cache entry; staleness, the real quality function (NAK decay, "
+         "bursts, RTT bonus, 30 s grace boundary) and the soft cap over time are covered by the recorded histories, "
+         "where scores are compared within the rounding of the logged 1/1000 units.")
 CLAIMED["C04"] = dict(
     engine="tlc+selection", design_ref="4.4",
     technique="TLA+ Selection.tla Routed/Eligible operators checked by TLC on the enumerated space x packet kind x "
@@ -171,9 +174,10 @@ CLAIMED["C01"] = dict(
          "failures on the bounded model (scaled thresholds, 3-4 datagrams, 2 links, no depth bound; 1e6-8e6 states) "
          "and checks queue bound, empty-after-tick, nothing vanishes, no duplicate on a link, per-link order; "
          "32k-190k arm calls of the real shell at the real constants (1..4 links, both modes, all regimes, loss, "
-         "black-holing, send failures, re-registration) are accepted only if every captured frame sequence is "
+         "black-holing, send failures, kernel back-pressure, re-registration) are accepted only if every captured frame sequence is "
          "exactly the queue the specification says was flushed.",
-    note=SHELL_NOTE + " A short sendmmsg cannot be provoked on loopback and is not covered; the 15 ms hold bound "
+    note=SHELL_NOTE + " Short sendmmsg counts / EAGAIN inside a batch are provoked by moving one link behind a "
+         "4 KiB datagram pair wrapped in the real BatchUdpSocket (loopback UDP never pushes back); the 15 ms hold bound "
          "is covered as `empty after every flush tick`, the timer itself is not executed.")
 CLAIMED["C08"] = dict(
     engine="tlc+shellsim", design_ref="4.8",
